@@ -109,6 +109,10 @@ Fixpoint refine_n (mid : Q -> Q -> Q) (n : nat) (g : grid) : grid :=
 Definition fixed_grid (h : Q) (nb dim : nat) : grid :=
   let '(xs, o) := fixed_axis h nb in mk_grid h o (repeat xs dim).
 
+(* the repaired constructor raises ValueError for nb_of_points < 2 (fix-grid) *)
+Definition fixed_ctor (h : Q) (nb dim : nat) : option grid :=
+  if (2 <=? nb)%nat then Some (fixed_grid h nb dim) else None.
+
 (* CTMCCredit for a list of thresholds (dimension = length); dimension 1 never uses the symmetric layout *)
 Fixpoint all_some {A : Type} (l : list (option A)) : option (list A) :=
   match l with
@@ -137,5 +141,12 @@ Definition qpl_eqb (a b : list (Q * Q)) : bool :=
      | [], [] => true
      | (x1, x2) :: r, (y1, y2) :: s => Qeq_bool x1 y1 && Qeq_bool x2 y2 && go r s
      | _, _ => false end) a b.
+Definition ogrid_eqb (og : option grid) (e : option (list (list Q) * Q * nat * list (Q * Q))) : bool :=
+  match og, e with
+  | None, None => true
+  | Some g, Some (axes, h, o, tr) =>
+      qll_eqb (g_axes g) axes && Qeq_bool (g_h g) h && Nat.eqb (g_o g) o && qpl_eqb (g_trunc g) tr
+  | _, _ => false
+  end.
 Definition grid_eqb (g : grid) (axes : list (list Q)) (h : Q) (o : nat) (tr : list (Q * Q)) : bool :=
   qll_eqb (g_axes g) axes && Qeq_bool (g_h g) h && Nat.eqb (g_o g) o && qpl_eqb (g_trunc g) tr.
